@@ -606,25 +606,42 @@ def generate():
     d.append("/- GENERATED by tools/extract.py from /repo's working tree. Do not edit. -/")
     d.append("namespace Generated")
     d.append("")
+    # C16: numeric view of the declaration table (names -> indices, ownership by value, raw-secret roots)
+    SECRET_ROOTS = [("Seed", "data"), ("LmotsPrivateKey", "key")]
+    names = [x["name"] for x in decls]
+    for (sn, fn) in SECRET_ROOTS:
+        if not any(x["name"] == sn and any(f[0] == fn for f in x["fields"]) for x in decls):
+            raise TieBroken("secret root %s.%s not found among the struct declarations" % (sn, fn))
     d.append("structure FieldDecl where")
     d.append("  name : String")
     d.append("  ty : String")
-    d.append("  skip : Bool")
+    d.append("  skip : Bool          -- #[zeroize(skip)]")
+    d.append("  owns : List Nat      -- indices of the structs this field owns by value (references do not own)")
+    d.append("  rawSecret : Bool     -- the field itself stores secret bytes (seed bytes / chain values)")
     d.append("deriving Repr, DecidableEq")
     d.append("")
     d.append("structure StructDecl where")
+    d.append("  idx : Nat")
     d.append("  file : String")
     d.append("  name : String")
     d.append("  derives : List String")
+    d.append("  zeroize : Bool       -- derive(Zeroize)")
+    d.append("  zeroizeOnDrop : Bool -- derive(ZeroizeOnDrop)")
     d.append("  fields : List FieldDecl")
     d.append("deriving Repr, DecidableEq")
     d.append("")
     d.append("def structDecls : List StructDecl := [")
     rows = []
-    for x in decls:
-        fl = ", ".join("⟨%s, %s, %s⟩" % (lean_str(n), lean_str(ty), "true" if sk else "false") for n, ty, sk in x["fields"])
-        rows.append("  ⟨%s, %s, [%s], [%s]⟩" % (lean_str(x["file"]), lean_str(x["name"]),
-                                                   ", ".join(lean_str(y) for y in x["derives"]), fl))
+    for i, x in enumerate(decls):
+        fl = []
+        for n_, ty, sk in x["fields"]:
+            owns = [] if ty.strip().startswith("&") else [j for j, nm in enumerate(names) if re.search(r"\b%s\b" % re.escape(nm), ty)]
+            raw = (x["name"], n_) in SECRET_ROOTS
+            fl.append("⟨%s, %s, %s, %s, %s⟩" % (lean_str(n_), lean_str(ty), "true" if sk else "false", lean_nat_list(owns), "true" if raw else "false"))
+        rows.append("  ⟨%d, %s, %s, [%s], %s, %s, [%s]⟩" % (i, lean_str(x["file"]), lean_str(x["name"]),
+                                                   ", ".join(lean_str(y) for y in x["derives"]),
+                                                   "true" if "Zeroize" in x["derives"] else "false",
+                                                   "true" if "ZeroizeOnDrop" in x["derives"] else "false", ", ".join(fl)))
     d.append(",\n".join(rows))
     d.append("]")
     d.append("")
@@ -644,7 +661,7 @@ def generate():
     d.append("end Generated")
     files["Decls.lean"] = "\n".join(d) + "\n"
 
-    meta = dict(anchor_digests=digests, ambient=ambient, structs=[x["name"] for x in decls])
+    meta = dict(anchor_digests=digests, ambient=ambient, structs=[x["name"] for x in decls], decls=decls)
     return files, meta
 
 
